@@ -1,5 +1,6 @@
 """C09 Cancellation stops the stream at both ends."""
 from .. import assert_repo
+from ..links import ANY_LINK
 
 ID = 'C09'
 LEVEL = 'exploration'
@@ -159,7 +160,7 @@ def run_raw_cancel(idx, rng, tier):
     from ..pair import trace_excerpt
     MAXN = 0x7FFFFFFF
     gap = lambda: rng.choice([('none',), ('none',), ('ticks', 1), ('ticks', 3), ('virtual', 1e-3), ('virtual', 0.05), ('virtual', 0.5)])
-    d = {'real': rng.choice('sc'), 'link': rng.choice(['bytes', 'messages']), 'frag': rng.choice([None, None, 64]),
+    d = {'real': rng.choice('sc'), 'link': rng.choice(ANY_LINK), 'frag': rng.choice([None, None, 64]),
          'producer': rng.choice(['responder', 'responder', 'channel-requester']),
          'model': rng.choice(['stream', 'channel']), 'source': rng.choice(SOURCES),
          'count': rng.choice([0, 1, 3, 10, 40]), 'size': rng.choice([1, 20, 200]),
